@@ -112,12 +112,17 @@ def reprInfoOf (cls : String) : Option ReprInfo :=
   (Gen.ExportTables.reprProbe.lookup cls).map
     (fun (p, al, cd, ad) => ⟨p, al, cd.map (fun (n, k) => (n, dropKindOf k)), ad⟩)
 
-/-- `Representation.package_of` for an object of a module of the library -/
+/-- `s[n:]` -/
+def strFrom (s : String) (n : Nat) : String := String.ofList (s.toList.drop n)
+
+/-- `Representation.package_of` for an object whose module has the name `module` (any alias, any module name; tied to
+    the code by `C15.code_packageOf`): the module path for the alias `''`, nothing for `'*'`, the alias for a module of the
+    library, the module path otherwise; a module below `fuzzylite.examples` keeps its path below `fuzzylite` after a
+    non-empty alias; a non-empty prefix ends in exactly one more `.` unless it ends in one already -/
 def packageOf (al module : String) : String :=
-  if al = "" then module ++ "."
-  else if al = "*" then ""
-  else if module.startsWith "fuzzylite." then al ++ "."
-  else module ++ "."
+  let base := if al = "" then module else if al = "*" then "" else if module.startsWith "fuzzylite." then al else module
+  let pkg := if module.startsWith "fuzzylite.examples." && al != "" then base ++ strFrom module 9 else base
+  if pkg != "" && !pkg.endsWith "." then pkg ++ "." else pkg
 
 def classPrefix (env : Env) (cls : String) : String :=
   packageOf env.aliasName ((Gen.ExportTables.classModule.lookup cls).getD "fuzzylite")
